@@ -200,10 +200,14 @@ async fn run_remote(
     }
     join_handles(handles).await;
 
-    if !plan.delete.is_empty() {
-        apply_remote_deletes(dir, host, remote_root, local_root, &plan.delete).await;
-    }
-    report(start, &progress, &plan, &src_desc, &dst_desc, opts.verbose)
+    let deleted = if plan.delete.is_empty() {
+        Ok(())
+    } else {
+        apply_remote_deletes(dir, host, remote_root, local_root, &plan.delete).await
+    };
+    let reported = report(start, &progress, &plan, &src_desc, &dst_desc, opts.verbose);
+    deleted?;
+    reported
 }
 
 /// Atomic pull: stream to a `.copia-tmp` sibling, rename into place, set mtime.
@@ -233,13 +237,9 @@ async fn apply_remote_deletes(
     remote_root: &str,
     local_root: &Path,
     dels: &[PathBuf],
-) {
+) -> Result<(), String> {
     match dir {
-        Dir::Pull => {
-            for rel in dels {
-                let _ = std::fs::remove_file(local_root.join(rel));
-            }
-        }
+        Dir::Pull => delete_local(local_root, dels)?,
         Dir::Push => {
             use std::fmt::Write as _;
             use tokio::io::AsyncWriteExt;
@@ -248,23 +248,53 @@ async fn apply_remote_deletes(
             for rel in dels {
                 let _ = write!(list, "{}/{}\0", remote_root, rel.display());
             }
-            if let Ok(mut child) = tokio::process::Command::new("ssh")
+            let mut child = tokio::process::Command::new("ssh")
                 .arg(host)
                 .arg("xargs -0 rm -f --")
                 .stdin(std::process::Stdio::piped())
                 .stdout(std::process::Stdio::null())
                 .stderr(std::process::Stdio::piped())
                 .spawn()
-            {
-                if let Some(mut stdin) = child.stdin.take() {
-                    let _ = stdin.write_all(list.as_bytes()).await;
-                    drop(stdin);
-                }
-                let _ = child.wait_with_output().await;
+                .map_err(|e| format!("remote delete: ssh: {e}"))?;
+            let sent = match child.stdin.take() {
+                Some(mut stdin) => stdin.write_all(list.as_bytes()).await,
+                None => Ok(()),
+            };
+            let out = child
+                .wait_with_output()
+                .await
+                .map_err(|e| format!("remote delete: {e}"))?;
+            sent.map_err(|e| format!("remote delete: sending the list: {e}"))?;
+            if !out.status.success() {
+                return Err(format!(
+                    "remote delete failed: {}",
+                    String::from_utf8_lossy(&out.stderr).trim()
+                ));
             }
         }
     }
     eprintln!("Deleted {} stale file(s) on the destination", dels.len());
+    Ok(())
+}
+
+/// Remove stale files below `root`. One that is already gone is fine; any other
+/// error is reported and fails the run instead of being counted as deleted.
+fn delete_local(root: &Path, dels: &[PathBuf]) -> Result<(), String> {
+    let mut failed = 0usize;
+    for rel in dels {
+        match std::fs::remove_file(root.join(rel)) {
+            Ok(()) => {}
+            Err(e) if e.kind() == std::io::ErrorKind::NotFound => {}
+            Err(e) => {
+                eprintln!("FAILED delete {}: {e}", rel.display());
+                failed += 1;
+            }
+        }
+    }
+    if failed > 0 {
+        return Err(format!("{failed} stale file(s) could not be deleted"));
+    }
+    Ok(())
 }
 
 #[allow(clippy::cast_possible_truncation)]
@@ -312,20 +342,20 @@ async fn run_local(
     }
     join_handles(handles).await;
 
-    if !plan.delete.is_empty() {
-        for rel in &plan.delete {
-            let _ = std::fs::remove_file(dst.join(rel));
-        }
+    let deleted = delete_local(dst, &plan.delete);
+    if deleted.is_ok() && !plan.delete.is_empty() {
         eprintln!("Deleted {} stale file(s)", plan.delete.len());
     }
-    report(
+    let reported = report(
         start,
         &progress,
         &plan,
         &src.display().to_string(),
         &dst.display().to_string(),
         opts.verbose,
-    )
+    );
+    deleted?;
+    reported
 }
 
 /// Atomic local copy: copy to a `.copia-tmp` sibling, rename, set mtime.
